@@ -597,6 +597,48 @@ class features:
         return False
 
 
+def r24_explicit_else(text, fired):
+    """R24 (opt-in per function, `fn.rules = ('R24',)`):  `if C { B }` without an `else`  ->  `if C { B } else { }`  (same meaning:
+    an else-less `if` has type () and an empty else branch).  Why: Verus 0.2026.09.13 mis-resolves a value holding a `&mut`
+    (e.g. a BTreeMap entry) that is moved in the then-branch of an else-less `if <bool>` which falls through: the join point then
+    assumes the reference unchanged AND changed, i.e. `false` (reproduced in isolation; an explicit else is handled correctly).
+    Match guards (`pat if c =>`) are left alone."""
+    n = 0
+    pos = 0
+    while True:
+        msk = mask(text)
+        m = re.compile(r'\bif\b').search(msk, pos)
+        if not m:
+            break
+        pos = m.end()
+        # the then-block: first `{` at ()/[] depth 0 after the condition; a `=>` or `;` met first means a match guard / not an if-expression
+        k, d, ob = m.end(), 0, -1
+        while k < len(msk):
+            c = msk[k]
+            if c in '([':
+                d += 1
+            elif c in ')]':
+                d -= 1
+                if d < 0:
+                    break
+            elif d == 0 and c == '{':
+                ob = k
+                break
+            elif d == 0 and (msk.startswith('=>', k) or c == ';'):
+                break
+            k += 1
+        if ob < 0:
+            continue
+        cb = match_close(msk, ob)
+        if re.match(r'\s*else\b', msk[cb + 1:]):
+            continue
+        text = text[:cb + 1] + ' else { }' + text[cb + 1:]
+        n += 1
+    if n:
+        fired.append('R24 explicit empty else added to %d else-less if(s)' % n)
+    return text
+
+
 def rewrite_body(text, fired):
     text = r6_resolve_cfg(text, fired)
     text = r12_iter_flatten(text, fired)
